@@ -276,6 +276,20 @@ func (cl *cluster) apply(ev string) {
 				m.Actions = nil
 			}
 		}
+	case "AddSnapF":
+		// AddReplica whose add-time snapshot fails on one replica that is in service (REST failure)
+		i, fnode := atoi(f[1]), atoi(f[2])
+		cl.nAdds++
+		cl.nFaults++
+		cl.failREST[fmt.Sprintf("%d/snapshot", fnode)] = true
+		err := cl.guard(ev, func() error { return c.AddReplica(addr(i)) })
+		cl.observe("%s -> %v", ev, err != nil)
+		cl.terr(ev, err)
+		if err == nil {
+			if m, ok := cl.nodes[i].(*ModelNode); ok {
+				m.Actions = nil
+			}
+		}
 	case "AddB":
 		// first half of AddReplica: admission check under the lock, then parked inside factory.Create (unlocked)
 		i := atoi(f[1])
